@@ -255,9 +255,81 @@ pub fn glob_verdict(g: &GlobRt, rel: &str) -> Verdict {
     }
 }
 
+/// What a bare glob walk (no layers, one pass-through probe) was observed to do.  The stack
+/// model takes the glob's own pruning from here, so it does not depend on *how* the walker decides
+/// which directories cannot contain a match — only on that decision being sound (checked by
+/// `validate_observed`) and repeatable.
+pub struct Observed {
+    /// entries the glob walk feeds downstream (filtrate and residue)
+    pub fed: BTreeSet<String>,
+    /// entries the glob walk yields
+    pub yielded: BTreeSet<String>,
+    /// directories whose whole tree the glob walk was observed to skip
+    pub pruned: BTreeSet<String>,
+}
+
+fn is_beneath(dir: &str, rel: &str) -> bool {
+    if dir.is_empty() {
+        !rel.is_empty()
+    }
+    else {
+        rel.starts_with(&format!("{}/", dir))
+    }
+}
+
+/// Derive the observed pruning and validate it against the reference entries:
+/// every entry that is not fed must lie beneath a fed directory *all* of whose descendants are
+/// absent (a pruned tree), and no pruned tree may contain a path the glob matches.
+pub fn observe(entries: &[(String, bool)], glob: &GlobRt, fed: BTreeSet<String>, yielded: BTreeSet<String>) -> Result<Observed, String> {
+    let mut pruned = BTreeSet::new();
+    for (rel, is_dir) in entries {
+        if *is_dir && fed.contains(rel) {
+            let mut any = false;
+            let mut any_fed = false;
+            for (d, _) in entries {
+                if is_beneath(rel, d) {
+                    any = true;
+                    if fed.contains(d) {
+                        any_fed = true;
+                    }
+                }
+            }
+            if any && !any_fed {
+                pruned.insert(rel.clone());
+            }
+        }
+    }
+    for (rel, _) in entries {
+        if !fed.contains(rel) && !pruned.iter().any(|d| is_beneath(d, rel)) {
+            return Err(format!(
+                "glob `{}`: the entry {:?} is not fed downstream although it is not beneath a directory whose whole tree is skipped (skipped trees: {:?})",
+                glob.glob, rel, pruned
+            ));
+        }
+        if let Some(d) = pruned.iter().find(|d| is_beneath(d, rel)) {
+            if glob.glob.is_match(rel.as_str()) {
+                return Err(format!(
+                    "glob `{}`: the tree of {:?} is skipped although it contains the matching path {:?}",
+                    glob.glob, d, rel
+                ));
+            }
+        }
+    }
+    for f in &fed {
+        if !entries.iter().any(|(r, _)| r == f) {
+            return Err(format!("glob `{}`: feeds {:?}, which the reference traversal does not know", glob.glob, f));
+        }
+    }
+    Ok(Observed { fed, yielded, pruned })
+}
+
 /// `entries`: every entry of the underlying tree walk as (root-relative path, is_dir), parents
 /// before children.
 pub fn model(entries: &[(String, bool)], glob: Option<&GlobRt>, layers: &[LayerRt]) -> Model {
+    model_with(entries, glob, None, layers)
+}
+
+pub fn model_with(entries: &[(String, bool)], glob: Option<&GlobRt>, observed: Option<&Observed>, layers: &[LayerRt]) -> Model {
     let mut m = Model {
         fed: BTreeMap::new(),
         yielded: BTreeSet::new(),
@@ -282,7 +354,17 @@ pub fn model(entries: &[(String, bool)], glob: Option<&GlobRt>, layers: &[LayerR
         m.fed.insert(rel.clone(), *is_dir);
         let mut keep = true;
         let mut trees = 0;
-        if let Some(g) = glob {
+        if let Some(o) = observed {
+            // the glob's part is taken from the observed bare walk
+            if !o.yielded.contains(rel) {
+                keep = false;
+            }
+            if o.pruned.contains(rel) && *is_dir {
+                trees += 1;
+                m.pruned_by_glob += 1;
+            }
+        }
+        else if let Some(g) = glob {
             match glob_verdict(g, rel) {
                 Verdict::Keep => {},
                 Verdict::File => keep = false,
